@@ -232,6 +232,7 @@ func (e *reuseEngine) Generate(seed uint64, tier string, run int) (json.RawMessa
 	}
 	maxLen := kernel.Pick(rk, []int{8, 24, 64, 200})
 	lastFaceq := map[int]ReuseOp{}
+	lastUinit := ""
 	for len(c.Ops) < nOps {
 		k := kinds[rg.Weighted(weights)]
 		f := rg.Intn(len(c.Faces))
@@ -378,6 +379,15 @@ func (e *reuseEngine) Generate(seed uint64, tier string, run int) (json.RawMessa
 			op.N = genWidth(rg)
 		case "uinit":
 			op.Text = string(genText(rg, runes, maxLen))
+			if n := len([]rune(lastUinit)); n > 0 && rg.Chance(0.3) {
+				// same length as the previous paragraph, written into the same buffer
+				t := genText(rg, runes, n)
+				for len(t) < n {
+					t = append(t, 'a')
+				}
+				op.Text, op.E = string(t[:n]), 1
+			}
+			lastUinit = op.Text
 			if rg.Chance(0.3) {
 				op.N = 1 // the caller scribbles over its slice after Init
 			}
@@ -1248,7 +1258,15 @@ func (u *usegWorld) exec(op *ReuseOp, out *kernel.Outcome, trace *uint64) *kerne
 	case "uinit":
 		text := []rune(op.Text)
 		u.text = text
-		u.passed = copyRunes(text)
+		if op.E == 1 && cap(u.passed) >= len(text) && len(text) > 0 {
+			// the caller refills the buffer it used for the previous paragraph (same backing
+			// array, often the same length) instead of allocating a new slice
+			u.passed = u.passed[:len(text)]
+			copy(u.passed, text)
+			out.Count("probe.useg_input_buffer_refilled_in_place", 1)
+		} else {
+			u.passed = copyRunes(text)
+		}
 		u.iters = nil
 		// Another user of the package right before (a decoy text chosen to leave the rules'
 		// look-behind state non-neutral), and a neutral text before the reference model is
